@@ -164,7 +164,8 @@ def value_strategy(var, *, zc=False, finite=False, xml_safe=False, allow_str=Tru
     if t in INT_RANGES:
         return _ints(*INT_RANGES[t])
     if t == T.MVT_BOOL:
-        return st.one_of(st.booleans(), st.booleans(), st.sampled_from([0, 1]))
+        # the wire type is one unsigned byte: mostly booleans, sometimes any byte value
+        return st.one_of(st.booleans(), st.booleans(), st.sampled_from([0, 1]), st.integers(0, 255))
     if t == T.MVT_F32:
         return _floats(32, finite)
     if t == T.MVT_F64:
